@@ -1143,24 +1143,68 @@ def check_cli(chk, drv, r, tier, work, jobs):
                             {**tag, "mcmc_seed": 0}, [lkey(l) for l in sel0])
 
         # ---------------- call / call-exact / call-pedigree on the assembled haplotypes
+        # one record of the haplotypes file carries the REFMASKED flag (its reference allele gets prior 0): whatever a
+        # program derives for it must stay with that record, wherever it stands relative to records of equal allele count
+        recs_c = list(recs0)
+        n_alt_of = lambda l: 0 if l.split("\t")[4] == "." else len(l.split("\t")[4].split(","))
+        cand = [i for i, l in enumerate(recs_c) if n_alt_of(l) and "REFMASKED" not in l.split("\t")[7]]
+        if len(cand) >= 2 and d % 2 == 0:
+            # the masked record stands between two others; one of its neighbours in the file has (or is cut down to) the
+            # same number of alleles
+            pairs = [(i, j) for i in cand[1:] for j in cand if j != i and n_alt_of(recs_c[i]) == n_alt_of(recs_c[j])]
+            if pairs:
+                i, j = pairs[len(pairs) // 2]
+            else:
+                i, j = cand[len(cand) // 2], cand[0]
+                k = min(n_alt_of(recs_c[i]), n_alt_of(recs_c[j]))
+                for x in (i, j):
+                    f = recs_c[x].split("\t")
+                    f[4] = ",".join(f[4].split(",")[:k])
+                    f[7] = ";".join(t if not t.startswith(("AFP=", "AC=", "AOP=", "ACP=")) else
+                                    t.split("=")[0] + "=" + ",".join(t.split("=")[1].split(",")[: k + (t[:3] in ("AFP", "AOP", "ACP"))])
+                                    for t in f[7].split(";"))
+                    recs_c[x] = "\t".join(f)
+                chk.count("cli:haplotypes-file-record-cut-to-equal-allele-count")
+            f = recs_c[i].split("\t")
+            f[7] = "REFMASKED" if f[7] in (".", "") else f[7] + ";REFMASKED"
+            recs_c[i] = "\t".join(f)
+            chk.count("cli:haplotypes-file-with-REFMASKED-record-beside-record-of-equal-allele-count")
         hv_txt = synth.write_text(os.path.join(work, f"ds{d}.haps.vcf"),
-                                  "\n".join(raw_hdr + recs0) + "\n")
+                                  "\n".join(raw_hdr + recs_c) + "\n")
         hv = synth.bgzip_tabix_vcf(hv_txt)
         ped = pedigree_files(r, work, ds, f"ds{d}")
+        # the records without the flag, alone: run by every program BEFORE this process has seen a masked record (state kept
+        # between loci or runs would be set by the first masked record and then look the same in every later run), and again
+        # in a fresh process
+        plain = [l for l in recs_c if "REFMASKED" not in l.split("\t")[7]]
+        plain_p = synth.write_text(os.path.join(work, f"ds{d}.haps.plain.vcf"), "\n".join(raw_hdr + plain) + "\n")
+        call_argvs, pre = {}, {}
         for prog in ("call", "call-exact", "call-pedigree"):
             extra = list(common) if prog != "call-exact" else []
-            n_cols = n_samples
             if prog == "call-pedigree":
                 # a real pedigree (children of S1 x S2, one of them without alignments), mixed ploidy via a gamete file
-                argv0 = ["mchap", prog, "--bam", *ds.bams, "--ploidy", ped["ploidy"], "--haplotypes", hv, *extra,
-                         "--sample-parents", ped["ped"], "--gamete-ploidy", ped["gametes"]]
-                n_cols = ped["n_columns"]
+                call_argvs[prog] = ["mchap", prog, "--bam", *ds.bams, "--ploidy", ped["ploidy"], "--haplotypes", hv, *extra,
+                                    "--sample-parents", ped["ped"], "--gamete-ploidy", ped["gametes"]]
             else:
-                argv0 = ds.call_argv(prog, hv, *extra)
+                call_argvs[prog] = ds.call_argv(prog, hv, *extra)
+            if plain and len(plain) < len(recs_c):
+                pre[prog] = run(set_arg(call_argvs[prog], "--haplotypes", plain_p), f"{prog} unflagged records first")[1]
+                chk.count(f"cli:{prog}-unflagged-records-before-any-masked-record")
+        for prog in ("call", "call-exact", "call-pedigree"):
+            n_cols = ped["n_columns"] if prog == "call-pedigree" else n_samples
+            argv0 = call_argvs[prog]
             perturb_process(r)
             ch0, cr0 = run(argv0, f"{prog} base", base=True)
             cbase = by_id(cr0)
             chk.count(f"cli:{prog}-base")
+            if prog in pre:
+                want = [rid(x) for x in plain]
+                chk.case({**tag, "prog": prog, "what": "unflagged records first", "order": want}, True)
+                compare_records(chk, f"{prog} with the records {want} alone, before the process has read any REFMASKED record",
+                                cbase, pre[prog], "C08/order/record", {**tag, "prog": prog, "order": want}, want)
+                jobs.submit(f"{prog} unflagged-records cores=1", set_arg(argv0, "--haplotypes", plain_p),
+                            {"base": cbase, "hdr": None, "ids": want, "cores": 1, "tag": {**tag, "prog": prog},
+                             "n_samples": n_cols, "sig": "C08/order/record"}, env=hash_env(r))
             for l in cr0:
                 if not intact(l, n_cols):
                     chk.violation(f"{prog}: a record line is not intact", {**tag, "line": l[:300]}, "C08/cores/intact")
@@ -1174,8 +1218,11 @@ def check_cli(chk, drv, r, tier, work, jobs):
                 chk.violation(f"{prog}: header differs between repeated runs", {**tag}, "C08/header")
             # permuted (plain text, no index needed) and subset haplotype files
             for v in range(2 if tier == "quick" else 4):
-                sel = list(recs0)
-                r.shuffle(sel)
+                sel = list(recs_c)
+                if v == 0:
+                    sel.reverse()           # every pair of records changes its relative order
+                else:
+                    r.shuffle(sel)
                 if v % 2 == 1:
                     sel = sel[: r.randint(2, max(2, n_loci - 1))]
                 p = synth.write_text(os.path.join(work, f"ds{d}.{prog}.hv{v}.vcf"),
@@ -1218,11 +1265,11 @@ def check_cli(chk, drv, r, tier, work, jobs):
 
         # ---------------- sampler / input options
         if d == 0 or tier == "thorough":
-            option_runs(chk, r, run, jobs, work, ds, d, tier, common, hv, raw_hdr, recs0, ped, tag)
+            option_runs(chk, r, run, jobs, work, ds, d, tier, common, hv, raw_hdr, recs_c, ped, tag)
 
         # ---------------- fault injection (real subprocesses)
         if d == 0:
-            fault_jobs(r, tier, work, ds, acommon, common, jobs, raw_hdr, recs0, ped)
+            fault_jobs(r, tier, work, ds, acommon, common, jobs, raw_hdr, recs_c, ped)
     return drv_reqs
 
 
@@ -1363,7 +1410,7 @@ def run_subprocesses(chk, drv, results, drv_reqs):
                               {**tag, "argv": argv, "exit": code, "stderr": last_err}, "C08/run/status")
                 continue
             compare_records(chk, label + " (subprocess)", exp["base"], recs, exp.get("sig", "C08/cores/multiset"), tag, exp["ids"])
-            if hdr != exp["hdr"]:
+            if exp["hdr"] is not None and hdr != exp["hdr"]:
                 chk.violation(f"{label}: header differs from the single-core in-process run", tag, "C08/header")
             if exp["cores"] > 1:
                 check_order_admissible(chk, drv_reqs, label, exp["ids"], order, exp["cores"], tag)
